@@ -235,8 +235,21 @@ class Executor:
         cnames = [pn for pn, _ in self.c.params]
         # parameters are matched by POSITION (a renamed parameter keeps its contract); the contract's names denote entry values
         self.entry_params = {}
+        extra_defaults = {}
+        if len(names) + (1 if args.vararg else 0) > len(cnames) and not args.vararg and all(n in names for n in cnames):
+            # NEW trailing parameters with constant defaults: the contract speaks about calls with the contract's parameters, at which
+            # the new ones have their defaults - the body is verified with them fixed to these
+            extra = names[len(cnames):]
+            if names[:len(cnames)] == cnames and len(args.defaults) >= len(extra) \
+                    and all(isinstance(d, ast.Constant) and isinstance(d.value, (int, bool, str, type(None))) for d in args.defaults[len(args.defaults) - len(extra):]):
+                for n_, d in zip(extra, args.defaults[len(args.defaults) - len(extra):]):
+                    extra_defaults[n_] = d
+                names = names[:len(cnames)]
         if len(names) + (1 if args.vararg else 0) != len(cnames) and not all(n in pmap for n in names):
             raise OutOfSubset('the contract of %s has %d parameters, the function %d' % (self.qualname, len(cnames), len(names)))
+        for n_, d in extra_defaults.items():
+            for st_, v_ in self.eval(d, st):
+                st.env[n_] = v_
         for i, n in enumerate(names):
             cn = n if n in pmap else (cnames[i] if i < len(cnames) and cnames[i] not in names else None)
             if cn is None:
@@ -248,7 +261,7 @@ class Executor:
             if pmap[cn].startswith('Opt:'):
                 d = pmap[cn].split(':', 2)
                 want = d[2] if len(d) > 2 else 'None'
-                k_ = i - (len(names) - len(args.defaults))
+                k_ = i - (len(args.args) - len(args.defaults))
                 have = ast.unparse(args.defaults[k_]) if 0 <= k_ < len(args.defaults) else '<no default>'
                 self.oblige(st.fork().tag(n), 'signature.default_is_the_contracts', 'true' if have == want else 'false', 'pre')
         if args.vararg:
@@ -1443,6 +1456,11 @@ class Executor:
                     return r
             raise OutOfSubset('comparison of %s with None' % other.sort, e)
         if a.sort == b.sort and a.sort in ('Int', 'Bool', 'Str') and not ident:
+            return EQ(a.e, b.e)
+        if a.sort == b.sort and a.sort in ('Int', 'Str') and ident:
+            # `is` on two strings / ints is object identity: equal values may be different objects (strings built at run time,
+            # ints above 256), so it is not the equality the specifications speak of
+            self.oblige(st.fork().tag('is'), 'safety.identity_comparison_is_exact', 'false', 'safety')
             return EQ(a.e, b.e)
         if a.sort == 'Term' and b.sort == 'Term':
             # `==`/`is` on engine objects is identity. The term datatype identifies objects of equal
